@@ -4,6 +4,7 @@ import (
 	"fmt"
 	"go/constant"
 	"go/token"
+	"go/types"
 	"os"
 	"sort"
 	"strings"
@@ -220,6 +221,7 @@ func enumerate(fn *ssa.Function, opt LeafOptions, cx *callCtx, cut bool) ([]*Lea
 		bind   map[ssa.Value]*Term
 		mem    localMem
 		cuts   []Cut
+		bs     bstate
 	}
 	priv := map[ssa.Value]bool{}
 	var err error
@@ -380,8 +382,8 @@ func enumerate(fn *ssa.Function, opt LeafOptions, cx *callCtx, cut bool) ([]*Lea
 			}
 			return b
 		}
-		var process func(i int, guards []*Term, eff []Effect, bind map[ssa.Value]*Term, mem localMem, cuts []Cut)
-		process = func(i int, guards []*Term, eff []Effect, bind map[ssa.Value]*Term, mem localMem, cuts []Cut) {
+		var process func(i int, guards []*Term, eff []Effect, bind map[ssa.Value]*Term, mem localMem, cuts []Cut, bs bstate)
+		process = func(i int, guards []*Term, eff []Effect, bind map[ssa.Value]*Term, mem localMem, cuts []Cut, bs bstate) {
 			if err != nil {
 				return
 			}
@@ -460,9 +462,17 @@ func enumerate(fn *ssa.Function, opt LeafOptions, cx *callCtx, cut bool) ([]*Lea
 							ok := true
 							at := make([]int, len(L.Guards)+1) // at[k]: number of guards after the callee's first k
 							at[0] = len(ng)
+							nbs := bs
+							ei := 0
 							for k, g := range L.Guards {
+								// the callee's calls that precede this condition, for the emptiness of builders
+								for ; ei < len(L.Effects) && L.Effects[ei].NG <= k; ei++ {
+									if L.Effects[ei].Kind == "call" {
+										nbs = nbs.apply(tr(L.Effects[ei].Val))
+									}
+								}
 								var keep bool
-								ng, keep = addGuard(ng, tr(g))
+								ng, keep = addGuard(ng, nbs.resolveLen(tr(g)))
 								if !keep {
 									ok = false
 									break
@@ -471,6 +481,11 @@ func enumerate(fn *ssa.Function, opt LeafOptions, cx *callCtx, cut bool) ([]*Lea
 							}
 							if !ok {
 								continue
+							}
+							for ; ei < len(L.Effects); ei++ {
+								if L.Effects[ei].Kind == "call" {
+									nbs = nbs.apply(tr(L.Effects[ei].Val))
+								}
 							}
 							pos := func(k int) int {
 								if k < 0 {
@@ -521,13 +536,19 @@ func enumerate(fn *ssa.Function, opt LeafOptions, cx *callCtx, cut bool) ([]*Lea
 							} else {
 								nb[call] = &Term{Op: "tuple", Args: rets}
 							}
-							process(i+1, ng, ne, nb, mem, ncuts)
+							process(i+1, ng, ne, nb, mem, ncuts, nbs)
 						}
 						return
 					}
 				}
 			opaque:
+				if al, ok := in.(*ssa.Alloc); ok && isBuilderPtr(al.Type()) {
+					bs = bs.with(b.Term(al).Key(), bEmpty) // a fresh strings.Builder is empty
+				}
 				if !opt.Effects {
+					if x, ok := in.(*ssa.Call); ok {
+						bs = bs.apply(b.Term(x))
+					}
 					continue
 				}
 				switch x := in.(type) {
@@ -544,6 +565,10 @@ func enumerate(fn *ssa.Function, opt LeafOptions, cx *callCtx, cut bool) ([]*Lea
 					if ct.Op == OConst {
 						continue // len of a reconstructed list: folded, no effect
 					}
+					if r := bs.resolveLen(ct); r != ct {
+						setBind(x, r) // b.Len() of a builder whose emptiness is known on this path
+					}
+					bs = bs.apply(ct)
 					eff = append(append([]Effect{}, eff...), Effect{Kind: "call", Val: ct, Pos: x.Pos(), NG: len(guards)})
 				}
 			}
@@ -556,7 +581,7 @@ func enumerate(fn *ssa.Function, opt LeafOptions, cx *callCtx, cut bool) ([]*Lea
 				}
 				out = append(out, lf)
 			case *ssa.Jump:
-				walk(blk.Succs[0], blk, state{phi, guards, eff, blocks, bind, mem, cuts})
+				walk(blk.Succs[0], blk, state{phi, guards, eff, blocks, bind, mem, cuts, bs})
 			case *ssa.If:
 				c := b.Term(t.Cond)
 				if debugInline && onPath[blk] > 1 {
@@ -571,7 +596,7 @@ func enumerate(fn *ssa.Function, opt LeafOptions, cx *callCtx, cut bool) ([]*Lea
 					if !keep {
 						continue
 					}
-					walk(succ, blk, state{phi, gs, eff, blocks, bind, mem, cuts})
+					walk(succ, blk, state{phi, gs, eff, blocks, bind, mem, cuts, bs})
 				}
 			case *ssa.Panic:
 				err = fmt.Errorf("%s: explicit panic at block %d", fn.String(), blk.Index)
@@ -579,7 +604,7 @@ func enumerate(fn *ssa.Function, opt LeafOptions, cx *callCtx, cut bool) ([]*Lea
 				err = fmt.Errorf("%s: unexpected terminator %T", fn.String(), last)
 			}
 		}
-		process(0, st.guards, st.eff, st.bind, st.mem, st.cuts)
+		process(0, st.guards, st.eff, st.bind, st.mem, st.cuts, st.bs)
 	}
 	bind0 := map[ssa.Value]*Term{}
 	if cx != nil {
@@ -589,11 +614,21 @@ func enumerate(fn *ssa.Function, opt LeafOptions, cx *callCtx, cut bool) ([]*Lea
 			}
 		}
 	}
-	walk(fn.Blocks[0], nil, state{phi: map[*ssa.Phi]ssa.Value{}, bind: bind0, mem: localMem{}})
+	walk(fn.Blocks[0], nil, state{phi: map[*ssa.Phi]ssa.Value{}, bind: bind0, mem: localMem{}, bs: bstate{}})
 	if err != nil {
 		return nil, err
 	}
 	return out, nil
+}
+
+// isBuilderPtr: t is *strings.Builder.
+func isBuilderPtr(t types.Type) bool {
+	p, ok := t.Underlying().(*types.Pointer)
+	if !ok {
+		return false
+	}
+	n, ok := p.Elem().(*types.Named)
+	return ok && n.Obj().Pkg() != nil && n.Obj().Pkg().Path() == "strings" && n.Obj().Name() == "Builder"
 }
 
 // renameLocals shifts the identifiers of local allocations / unresolved values of an inlined callee so that
